@@ -212,6 +212,156 @@ def split_random(rng, n):
     return cases
 
 
+# ---- family 'spell' (seeded/C03-6): spellings of one path that differ only in %-escapes.  kvarn routes on the RAW path (prepare_single keys,
+# the content type from the extension), so the spellings are different requests; the cache key must keep them apart.
+SPELLINGS = [(b"/page", [b"/p%61ge", b"/%70age"]), (b"/data.json", [b"/data%2Ejson", b"/data%2ejson"]), (b"/a/b", [b"/a%2Fb", b"/a/%62"]),
+             (b"/~u", [b"/%7Eu", b"/%7eu"]), (b"/a", [b"/%61"]), (b"/q", [b"/%71"])]
+
+
+def spell_handlers(rng, plain, odds, mode, sp):
+    """mode 0: a handler bound to the plain path only (the other spellings are 404); 1: handlers bound to every spelling that echo the raw path
+    (what a prepare_fn which names the path does); 2: handlers with their own status / body per spelling"""
+    mk = lambda p, i, **kw: pipe.H(p, spref=sp, headers=[(b"x-h", b"p%d" % i)], cpref=rng.choice([0, 3]), **kw)
+    if mode == 0:
+        return [mk(plain, 0, kind=1 if sp == 1 else rng.choice([0, 4]), body=b"generated:")]
+    if mode == 1:
+        return [mk(p, 0, kind=1, body=b"for:") for i, p in enumerate([plain] + odds)]
+    return [mk(p, i, kind=1 if sp == 1 else 0, body=b"own%d:" % i, status=rng.choice([200, 200, 404, 301])) for i, p in enumerate([plain] + odds)]
+
+
+def spell_cases(rng, tier):
+    cases = []
+    for plain, odds in SPELLINGS:
+        for mode in (0, 1, 2):
+            for sp in ((1, 2) if tier != "quick" else (rng.choice([1, 2]),)):
+                hs = spell_handlers(rng, plain, odds, mode, sp)
+                # a Full handler must not see two queries (kind 1 echoes the query): queries only under QueryMatters
+                q = b"?a=1" if sp == 1 else b""
+                o = odds[0]
+                directed = [[plain, plain, o, plain], [o, plain, o], [plain + q, o + q, plain + b"%3Fa=1", plain]]
+                if len(odds) > 1:
+                    directed.append([odds[1], o, plain, odds[1]])
+                if tier == "quick":
+                    directed = [directed[0], rng.choice(directed[1:])]
+                for h in directed:
+                    ops = [pipe.req(t, method=b"HEAD" if (j == 1 and rng.random() < 0.3) else b"GET") for j, t in enumerate(h)]
+                    cases += mk_cases(rng, hs, ops, rng.random() < 0.5, "spell", nocache_run=(tier != "quick"))
+    # random histories over the spellings of two paths
+    for i in range(30 if tier == "quick" else 600):
+        (p1, o1), (p2, o2) = rng.sample(SPELLINGS, 2)
+        sp = rng.choice([1, 2, 2, 0])
+        hs = spell_handlers(rng, p1, o1, rng.choice([0, 1, 2]), sp) + spell_handlers(rng, p2, o2, rng.choice([0, 1, 2]), sp)
+        uris = [p1] + o1 + [p2] + o2
+        qs = [b"", b"?a=1", b"?a=2"] if sp == 1 else [b""]
+        ops = []
+        for j in range(rng.randrange(3, 10)):
+            u = rng.choice(uris[:len(o1) + 1]) if rng.random() < 0.7 else rng.choice(uris)
+            r = rng.random()
+            if r < 0.08:
+                ops.append(pipe.clear_page(u))
+            else:
+                ops.append(pipe.req(u + rng.choice(qs), method=rng.choice([b"GET", b"GET", b"GET", b"HEAD", b"POST"]), addr=rng.randrange(1, 4)))
+        cases += mk_cases(rng, hs, ops, rng.random() < 0.4, "spell/random", pair=(i % 2 == 0), nocache_run=(i % 3 == 0))
+    # files: the content type is guessed from the extension of the raw path, the file is read from the decoded one (real-vs-real only:
+    # the file system is not in Model/CacheX.v)
+    files = [xl(xb(b"public/data.json"), xb(b"{\"k\": 1}")), xl(xb(b"public/page.html"), xb(b"<!DOCTYPE html><p>page</p>")), xl(xb(b"public/t.txt"), xb(b"text"))]
+    for h in ([b"/data.json", b"/data%2Ejson", b"/data.json"], [b"/data%2Ejson", b"/data.json", b"/data%2ejson"], [b"/page.html", b"/p%61ge.html", b"/page%2Ehtml", b"/page.html"],
+              [b"/t.txt", b"/t%2Etxt", b"/%74.txt", b"/t.txt"]):
+        cases += mk_cases(rng, [], [pipe.req(t) for t in h], False, "spell/files", run=False, files=files)
+    return cases
+
+
+# ---- family 'rules' (seeded/C03-7): vary rule sets in which an exact rule stands next to wildcard rules that cover the same path and vary
+# on OTHER headers.  extensions::RuleSet::get answers with the most specific rule (exact before wildcard, then the longer pattern: C14's
+# theorem most_specific_rule, Model/RuleSet.v); the handlers honour the rule that applies to their path.
+RULE_HDRS = [b"x-w", b"x-v", b"x-u"]
+
+
+def applicable(patterns, path):
+    """the pattern extensions::RuleSet::get must choose: the exact one, else the longest wildcard covering the path"""
+    if path in patterns:
+        return path
+    ws = [p for p in patterns if p.endswith(b"*") and path.startswith(p[:-1])]
+    return max(ws, key=len) if ws else None
+
+
+def rules_cases(rng, tier):
+    cases = []
+    layouts = [([b"/lang", b"/lang*"], [b"/lang", b"/langx"]), ([b"/api", b"/api*", b"/a*"], [b"/api", b"/api/x", b"/ab"]),
+               ([b"/lang*", b"/lang", b"/*"], [b"/lang", b"/other"]), ([b"/l/i.html", b"/l/*", b"/l*"], [b"/l/i.html", b"/l/j", b"/lx"]),
+               ([b"/lang", b"/lang*", b"/lan*", b"/langu*"], [b"/lang", b"/language", b"/land"])]
+    n = 0
+    for patterns, pages in layouts:
+        for rep in range(2 if tier == "quick" else 12):
+            order = list(patterns)
+            rng.shuffle(order)
+            tuples = {}
+            hdrs = RULE_HDRS[:]
+            rng.shuffle(hdrs)
+            for i, p in enumerate(order):
+                # every pattern varies on its own header (a wildcard sometimes on none)
+                tuples[p] = [] if (p.endswith(b"*") and rng.random() < 0.2) else [(hdrs[i % 3], rng.choice([0, 0, 1, 2]), b"d%d" % i)]
+            vary = [pipe.vary_rule(p, tuples[p]) for p in order]
+            hs = []
+            for pg in pages:
+                ap = applicable(patterns, pg)
+                hs.append(pipe.H(pg, kind=3, body=b"P" + pg, spref=rng.choice([1, 2, 2]), tuple_=tuples[ap] if ap else [], cpref=0))
+            vals = [b"a", b"zz", b"N", b"abc"]
+            if rep == 0:
+                # the exact page with two values of ITS header, then the values of the wildcards' headers
+                pg = pages[0]
+                own = tuples[applicable(patterns, pg)]
+                h = own[0][0] if own else b"x-w"
+                ops = [pipe.req(pg, headers=[(h, b"a")]), pipe.req(pg, headers=[(h, b"zz")]), pipe.req(pg, headers=[(h, b"a")]),
+                       pipe.req(pages[1], headers=[(x, b"N") for x in RULE_HDRS]), pipe.req(pg, headers=[(x, b"N") for x in RULE_HDRS])]
+            else:
+                ops = []
+                for j in range(rng.randrange(4, 10)):
+                    pg = rng.choice(pages[:1] * 3 + pages)
+                    if rng.random() < 0.06:
+                        ops.append(pipe.clear_page(pg))
+                        continue
+                    ops.append(pipe.req(pg, method=rng.choice([b"GET", b"GET", b"GET", b"HEAD", b"POST"]),
+                                        headers=[(x, rng.choice(vals)) for x in RULE_HDRS if rng.random() < 0.7]))
+            cases += mk_cases(rng, hs, ops, rng.random() < 0.3, "rules", vary=vary, pair=True, nocache_run=(tier != "quick" or n % 3 == 0))
+            n += 1
+    return cases
+
+
+# ---- family 'expand' (seeded/C03-8): default extensions on, a vary rule on the page a short spelling expands to ('/' -> '/index.html',
+# '/a/' -> '/a/index.html', '/a.' -> '/a.html'), the item entering the cache through the short or the long spelling, then other header values.
+EXPANSIONS = [(b"/", b"/index.html"), (b"/a/", b"/a/index.html"), (b"/a.", b"/a.html"), (b"/index.", b"/index.html")]
+
+
+def expand_cases(rng, tier):
+    cases = []
+    for short, long_ in EXPANSIONS:
+        for rep in range(2 if tier == "quick" else 10):
+            tup = [(b"x-w", rng.choice([0, 0, 1, 2]), b"dw")] + ([(b"x-v", 0, b"dv")] if rng.random() < 0.3 else [])
+            sp = rng.choice([1, 2, 2])
+            hs = [pipe.H(long_, kind=3, body=b"L" + long_, spref=sp, tuple_=tup, cpref=0),
+                  pipe.H(b"/plain", kind=0, body=b"plain", spref=2, cpref=0)]
+            vary = [pipe.vary_rule(long_, tup)]
+            if rng.random() < 0.3:
+                vary.append(pipe.vary_rule(short, [(b"x-u", 0, b"du")]))      # a rule on the short spelling: never applies (the URI is rewritten first)
+            H = lambda v: [(b"x-w", v)]
+            if rep == 0:
+                ops = [pipe.req(short, headers=H(b"a")), pipe.req(short, headers=H(b"zz")), pipe.req(long_, headers=H(b"N")),
+                       pipe.req(short, headers=H(b"a")), pipe.req(long_, headers=H(b"zz"))]
+            else:
+                ops = []
+                for j in range(rng.randrange(3, 9)):
+                    u = rng.choice([short, short, long_, b"/plain"])
+                    r = rng.random()
+                    if r < 0.08:
+                        ops.append(pipe.clear_page(rng.choice([short, long_])))
+                    else:
+                        ops.append(pipe.req(u + (rng.choice([b"", b"?x=1"]) if sp == 1 else b""), method=rng.choice([b"GET", b"GET", b"GET", b"HEAD", b"POST"]),
+                                            headers=[(b"x-w", rng.choice([b"a", b"zz", b"N", b"abc"]))] if rng.random() < 0.85 else []))
+            cases += mk_cases(rng, hs, ops, True, "expand", vary=vary, pair=True, nocache_run=(tier != "quick"))
+    return cases
+
+
 def mk_cases(rng, hs, ops, default_ext, kind, xhs=(), vary=(), pair=True, run=True, nocache_run=True, **cfgkw):
     out = []
     kw = dict(default_ext=default_ext, handlers=hs, report=[xb(r) for r in REPORT], disable_ims=False, **cfgkw)
@@ -271,6 +421,10 @@ def generate(rng, tier):
     # URIs whose PathQuery strings coincide but split differently (seeded/C03-3), both orders, handlers QueryMatters / Full / None
     cases += split_directed(rng, tier)
     cases += split_random(rng, 50 if tier == "quick" else 1500)
+    # %-escaped spellings of a path (seeded/C03-6), exact next to wildcard vary rules (C03-7), vary rules on expanded paths (C03-8)
+    cases += spell_cases(rng, tier)
+    cases += rules_cases(rng, tier)
+    cases += expand_cases(rng, tier)
     nhist = 230 if tier == "quick" else 5000
     for i in range(nhist):
         prefs = [rng.choice([0, 1, 2]) for _ in range(3)]
